@@ -69,29 +69,44 @@ def scoreGe (x y : Score) : Bool := geSqrt x.1 x.2 y.1 y.2
 abbrev Mask := Nat → Array Nat → List Bool
 def noMask : Mask := fun j p => (p.toList.drop j).map fun _ => false
 
-structure GState where
-  G : RMat
+/-- All linear algebra lives behind these two functions: the squared residual norm of a sensor and
+the elimination of a ranked sensor.  The Gram/Schur model `gramSys` is one instance; the
+combinatorial theorems (C03–C06) hold for every instance. -/
+structure ResidSys (σ : Type) where
+  norm2 : σ → Nat → Rat
+  elim : σ → Nat → σ
+
+def gramSys : ResidSys RMat := { norm2 := fun G c => G.get c c, elim := schur }
+
+structure GState (σ : Type) where
+  lin : σ
   p : Array Nat
 
+variable {σ : Type}
+
 /-- masked scores of the candidates `p[j:]`: `(norm², cost)`; a masked candidate has norm 0. -/
-def candScores (st : GState) (costs : Nat → Rat) (mask : Mask) (j : Nat) : List Score :=
-  List.zipWith (fun c z => ((if z then 0 else st.G.get c c), costs c))
+def candScores (S : ResidSys σ) (st : GState σ) (costs : Nat → Rat) (mask : Mask) (j : Nat) :
+    List Score :=
+  List.zipWith (fun c z => ((if z then 0 else S.norm2 st.lin c), costs c))
     (st.p.toList.drop j) (mask j st.p ++ List.replicate st.p.size false)
 
 /-- apply the pivot at position `i ≥ j`: swap and eliminate -/
-def applyPivot (st : GState) (j i : Nat) : GState :=
+def applyPivot (S : ResidSys σ) (st : GState σ) (j i : Nat) : GState σ :=
   if h : j < st.p.size ∧ i < st.p.size then
-    { G := schur st.G st.p[i], p := st.p.swap j i h.1 h.2 }
+    { lin := S.elim st.lin st.p[i], p := st.p.swap j i h.1 h.2 }
   else st
 
 /-- one greedy step: pivot = first argmax of `√norm2 − cost` over the (masked) candidates -/
-def greedyStep (costs : Nat → Rat) (mask : Mask) (st : GState) (j : Nat) : GState :=
-  applyPivot st j (j + firstArgmaxBy scoreGe (candScores st costs mask j))
+def greedyStep (S : ResidSys σ) (costs : Nat → Rat) (mask : Mask) (st : GState σ) (j : Nat) :
+    GState σ :=
+  applyPivot S st j (j + firstArgmaxBy scoreGe (candScores S st costs mask j))
 
-def initState (B : RMat) : GState := { G := gram B, p := Array.range B.size }
+def greedyRunFrom (S : ResidSys σ) (costs : Nat → Rat) (mask : Mask) (s0 : σ) (n k : Nat) :
+    GState σ :=
+  (List.range k).foldl (greedyStep S costs mask) { lin := s0, p := Array.range n }
 
-def greedyRun (costs : Nat → Rat) (mask : Mask) (B : RMat) (k : Nat) : GState :=
-  (List.range k).foldl (greedyStep costs mask) (initState B)
+def greedyRun (costs : Nat → Rat) (mask : Mask) (B : RMat) (k : Nat) : GState RMat :=
+  greedyRunFrom gramSys costs mask (gram B) B.size k
 
 def kOf (B : RMat) : Nat := min B.nrows B.ncols
 
@@ -112,32 +127,40 @@ structure StepVerdict where
   uniq : Bool        -- exact choice is unique by more than `δ` (every other candidate loses by > δ)
   candN2 : List Rat  -- exact squared residual norms of all candidates `p[j:]` (unmasked)
 
-/-- Replay a recorded trace of offsets under the exact model, judging every step:
-the chosen candidate must satisfy `√n2 − c ≥ √n2' − c' − δ` against every candidate. -/
-def replayStep (costs : Nat → Rat) (mask : Mask) (δ : Rat) (st : GState) (j off : Nat) :
-    GState × StepVerdict :=
-  let sc := candScores st costs mask j
-  let cands := st.p.toList.drop j
+/-- `δ`-acceptance of offset `off` at step `j`: the chosen candidate must satisfy
+`√n2 − c ≥ √n2' − c' − δ` against every candidate. -/
+def acceptsStep (S : ResidSys σ) (costs : Nat → Rat) (mask : Mask) (δ : Rat) (st : GState σ)
+    (j off : Nat) : Bool :=
+  let sc := candScores S st costs mask j
   let ch := sc.getD off (0, 0)
-  let ok := decide (off < sc.length) && sc.all fun y => geSqrt ch.1 ch.2 y.1 (y.2 + δ)
+  decide (off < sc.length) && sc.all fun y => geSqrt ch.1 ch.2 y.1 (y.2 + δ)
+
+/-- Replay one recorded offset under the exact model, judging the step. -/
+def replayStep (S : ResidSys σ) (costs : Nat → Rat) (mask : Mask) (δ : Rat) (st : GState σ)
+    (j off : Nat) : GState σ × StepVerdict :=
+  let sc := candScores S st costs mask j
+  let cands := st.p.toList.drop j
   let best := firstArgmaxBy scoreGe sc
   let bs := sc.getD best (0, 0)
   let uniq := (List.range sc.length).all fun i =>
     i == best || !(geSqrt (sc.getD i (0,0)).1 (sc.getD i (0,0)).2 bs.1 (bs.2 + δ))
   let c := cands.getD off 0
   let zs := mask j st.p
-  (applyPivot st j (j + off),
-   { ok := ok, chosen := c, chosenN2 := st.G.get c c, chosenMasked := zs.getD off false,
-     bestOff := best, uniq := uniq, candN2 := cands.map fun c => st.G.get c c })
+  (applyPivot S st j (j + off),
+   { ok := acceptsStep S costs mask δ st j off, chosen := c, chosenN2 := S.norm2 st.lin c,
+     chosenMasked := zs.getD off false, bestOff := best, uniq := uniq,
+     candN2 := cands.map fun c => S.norm2 st.lin c })
+
+def replayGo (S : ResidSys σ) (costs : Nat → Rat) (mask : Mask) (δ : Rat) :
+    GState σ → Nat → List Nat → List StepVerdict → GState σ × List StepVerdict
+  | st, _, [], acc => (st, acc.reverse)
+  | st, j, off :: rest, acc =>
+    let r := replayStep S costs mask δ st j off
+    replayGo S costs mask δ r.1 (j + 1) rest (r.2 :: acc)
 
 def replay (costs : Nat → Rat) (mask : Mask) (δ : Rat) (B : RMat) (tr : List Nat) :
-    GState × List StepVerdict :=
-  let rec go (st : GState) (j : Nat) : List Nat → List StepVerdict → GState × List StepVerdict
-    | [], acc => (st, acc.reverse)
-    | off :: rest, acc =>
-      let (st', v) := replayStep costs mask δ st j off
-      go st' (j + 1) rest (v :: acc)
-  go (initState B) 0 tr []
+    GState RMat × List StepVerdict :=
+  replayGo gramSys costs mask δ { lin := gram B, p := Array.range B.size } 0 tr []
 
 def accepts (costs : Nat → Rat) (mask : Mask) (δ : Rat) (B : RMat) (tr : List Nat) : Bool :=
   (replay costs mask δ B tr).2.all (·.ok)
